@@ -168,8 +168,11 @@ Definition insert_holds (points : list (list string)) (which : nat) (value befor
                 (* q below p is changed only through p; compare the others *)
                 (Nat.ltb (length pos) (length qpos) && poss_eqb pos (firstn (length pos) qpos)) ||
                 (Nat.ltb (length qpos) (length pos) && poss_eqb qpos (firstn (length qpos) pos)) ||
+                (* (a point found leniently in data of the wrong shape may name no place the strict
+                   reader can reach: then it must name none afterwards either) *)
                 match read_pos qpos before, read_pos qpos after with
                 | Some a, Some b => json_equiv a b
+                | None, None => true
                 | _, _ => false
                 end
             | None => false
@@ -186,7 +189,7 @@ Definition scrub_holds (field : string) (points : list (list string)) (before af
     match decode_path p with
     | Some pos => match read_pos pos after with
                   | Some (JObj m) => match jget field m with None => true | Some _ => false end
-                  | _ => false
+                  | _ => match read_pos pos before with None => true | Some _ => false end
                   end
     | None => false
     end) points.
